@@ -14,10 +14,14 @@ class CFG:
         self.n = n
         self.succ = [[] for _ in range(n)]
         self.pred = [[] for _ in range(n)]
+        dead = set(i for i, b in enumerate(body.blocks) if b['t']['k'] == 'unreachable' and not b['st'])
+        self.dead = dead
         for i, b in enumerate(body.blocks):
             if b.get('cleanup'):
                 continue
             for s in term_succs(b['t']):
+                if s in dead:
+                    continue      # `unreachable` arms are infeasible edges
                 if s not in self.succ[i]:
                     self.succ[i].append(s)
                     self.pred[s].append(i)
